@@ -61,6 +61,76 @@ theorem matchPoint_no_hit (t : Cloud) (b : Rat) (hb : b ≠ 0) (qp : Pt) (j : Na
   rw [hn]
   simp [effBound, hb, hfar]
 
+/-- **Every `NBlaster(...)` construction site forwards the same scoring keywords**: the self-hit blaster
+and every per-job blaster of `nblast`, `nblast_allbyall` and `nblast_smart` receive `smat`, `smat_kwargs`,
+`use_alpha`, `normalized`, `limit_dist`, `approx_nn` and `dtype=precision` from the front end's arguments of
+the same name (a dropped `smat_kwargs=smat_kwargs` — all-by-all scoring with the default sigma while the
+self hits use the requested one — breaks this). -/
+theorem source_blaster_sites_forward_scoring :
+    ∀ s ∈ Gen.Smat.blasterSites, s.2.2.filter (fun kv => kv.1 != "progress") = scoringForward := by decide
+
+/-- … hence all sites agree with each other … -/
+theorem source_blaster_sites_agree :
+    ∀ s ∈ Gen.Smat.blasterSites, ∀ s' ∈ Gen.Smat.blasterSites,
+      s.2.2.filter (fun kv => kv.1 != "progress") = s'.2.2.filter (fun kv => kv.1 != "progress") := by
+  intro s hs s' hs'
+  rw [source_blaster_sites_forward_scoring s hs, source_blaster_sites_forward_scoring s' hs']
+
+/-- … the forwarded keywords are exactly the constructor's parameters (bar `progress`), so nothing that
+decides a score is left to a default; all three front ends were found, each with its self-hit blaster and
+its job blaster(s). -/
+theorem source_blaster_params_all_forwarded :
+    (∀ p ∈ Gen.Smat.blasterParams, p = "progress" ∨ p ∈ scoringForward.map (·.1)) ∧
+    (∀ kv ∈ scoringForward, kv.1 ∈ Gen.Smat.blasterParams) ∧
+    (∀ f ∈ ["nblast", "nblast_allbyall", "nblast_smart"],
+      2 ≤ (Gen.Smat.blasterSites.filter (fun s => s.1 == f)).length) := by decide
+
+/-- **Consequence in the model**: whatever the arguments of the front end and the defaults of the
+constructor, every blaster built at any site is configured, for every scoring parameter, with the
+front end's argument — the self hits and the pairwise scores of one call use one score function. -/
+theorem blaster_sites_use_requested_config {V : Type} (args dflt : String → V) :
+    ∀ s ∈ Gen.Smat.blasterSites, ∀ kv ∈ scoringForward, siteConfig s.2.2 args dflt kv.1 = args kv.2 := by
+  intro s hs kv hkv
+  have h := source_blaster_sites_forward_scoring s hs
+  have key : ∀ (l : List (String × String)), l.filter (fun kv => kv.1 != "progress") = scoringForward →
+      ∀ kv ∈ scoringForward, l.find? (fun x => x.1 == kv.1) = some kv := by
+    intro l hl kv hkv
+    have hne : kv.1 ≠ "progress" := by
+      revert kv; decide
+    have hfind : (l.filter (fun kv => kv.1 != "progress")).find? (fun x => x.1 == kv.1) = some kv := by
+      rw [hl]; revert kv; decide
+    rw [List.find?_filter] at hfind
+    have gen : ∀ (l : List (String × String)),
+        l.find? (fun a => decide ((a.1 != "progress") = true ∧ (a.1 == kv.1) = true)) = l.find? (fun a => a.1 == kv.1) := by
+      intro l
+      induction l with
+      | nil => rfl
+      | cons x r ih =>
+        simp only [List.find?_cons]
+        by_cases hx : (x.1 == kv.1) = true
+        · have hx' : x.1 = kv.1 := by simpa using hx
+          have hp : (kv.1 != "progress") = true := by simpa using hne
+          simp [hx', hp]
+        · have hx2 : (x.1 == kv.1) = false := by simpa using hx
+          simp only [hx2, and_false, Bool.false_eq_true, decide_false]
+          exact ih
+    rw [← gen l]
+    exact hfind
+  unfold siteConfig
+  rw [key s.2.2 h kv hkv]
+
+/-- `smat_kwargs` carries exactly one key the constructor reads, `sigma_scoring` (default 10): the sigma of
+the analytic `smat='v1'` score `sqrt(|dot| · exp(-d² / 2σ²))`. -/
+theorem source_smat_kwargs_keys :
+    Gen.Smat.smatKwargsKeys = ["sigma_scoring"] ∧ Gen.Smat.sigmaScoringDefault = some 10 := by decide
+
+/-- **Every job's blaster receives each neuron together with that neuron's own self hit**: all
+`this.append(neurons[i], self_hits[j])` sites index both lists with the same variable and pair the matching
+lists (`target_self_hits[i]` — the position inside the job's column block — instead of `[ix]` breaks this:
+reverse scores of later column blocks would be normalised by another neuron's self hit). -/
+theorem source_append_sites_aligned :
+    Gen.Smat.appendSites.all appendAligned = true ∧ 7 ≤ Gen.Smat.appendSites.length := by decide
+
 /-- Both shipped score matrices parse (labels abut, one closedness per axis, strictly increasing
 boundaries, cell matrix of the right shape). -/
 theorem default_tables_parse : Gen.Smat.fcwb.isSome = true ∧ Gen.Smat.fcwbAlpha.isSome = true := by
